@@ -162,7 +162,11 @@ def remove_redundant_iter(source: str) -> str:
     template = (ast.For(iter=iter_template), ast.comprehension(iter=iter_template))
 
     for node in core.walk(root, template):
-        yield node.iter, node.iter.args[0]
+        # iter() is what the loop does anyway. list() and tuple() evaluate everything before the
+        # first iteration: an iterable that does something when it is iterated over (a generator,
+        # a file, ...) would be interleaved with the loop.
+        if node.iter.func.id == "iter" or _is_collection(node.iter.args[0], root, strings=True):
+            yield node.iter, node.iter.args[0]
 
 
 @processing.fix
